@@ -237,6 +237,26 @@ func (g *gen) nonEndpoint(b *BackSpec) string {
 
 func (g *gen) newHost(i int) HostSpec {
 	h := HostSpec{Name: fmt.Sprintf("h%d.local", i)}
+	// most hosts route to a backend, as an ingress rule does
+	if len(g.backs) > 0 && g.rng.Intn(5) != 0 {
+		bi := g.rng.Intn(len(g.backs))
+		h.Backend = g.backs[bi].ID()
+		switch g.rng.Intn(8) {
+		case 0, 1:
+			// auth-tls: SyncConfig flags the backend (TLS.HasTLSAuth)
+			g.certv++
+			h.AuthTLS = fmt.Sprintf("ca-v%d", g.certv)
+		case 2:
+			// ssl-passthrough: tcp backend, SyncConfig lays the frontends out differently
+			if g.backs[bi].Cookie == "" && g.backs[bi].BGHeader == "" {
+				h.Passthrough = true
+				g.backs[bi].ModeTCP = true
+			}
+		}
+		if g.rng.Intn(6) == 0 {
+			h.Path = "/app" // "/" is left to strict-host
+		}
+	}
 	if g.rng.Intn(4) != 0 {
 		h.Crt = fmt.Sprintf("crt%d", i)
 		g.certv++
@@ -263,6 +283,7 @@ func Gen(rng *rand.Rand, p Profile) (*Input, []string) {
 	if rng.Intn(5) == 0 {
 		in.Shards = []int{1, 3, 8}[rng.Intn(3)]
 	}
+	in.StrictHost = rng.Intn(5) == 0
 	if rng.Intn(4) == 0 {
 		in.SortBy = []string{"name", "ip", "random"}[rng.Intn(3)]
 	}
@@ -435,6 +456,10 @@ func (g *gen) step() (Step, string) {
 		h := &g.hosts[j]
 		h.Mut = ""
 		switch {
+		case kind == 6 && h.AuthTLS != "" && rng.Intn(2) == 0:
+			g.certv++
+			h.AuthTLS = fmt.Sprintf("ca-v%d", g.certv)
+			op += "host-ca-content "
 		case kind == 6:
 			h.Extra += "/x"
 			op += "host-field "
